@@ -122,8 +122,8 @@ def tagItem (c : Cfg) (tb pre : String) (fieldTypeName : String) (st : TagState)
   else if norm.startsWith "embedded_prefix:" then
     { st with at_ := { a with pre := trimPrefix ot "embedded_prefix:", isEmbedded := true } }
   else if norm.startsWith "foreign_key:" then
-    let fk0 := match a.fk with
-      | some f => f
+    let fk0 : FkAttrs := match a.fk with
+      | some f => { f with refColumn := trimPrefix ot "foreign_key:" }
       | none => { table := tb, refColumn := trimPrefix ot "foreign_key:" }
     let refTable := (c.tables.lookup fieldTypeName).getD (snake fieldTypeName)
     let fk1 := { fk0 with refTable := refTable, name := "fk_" ++ refTable ++ "_" ++ tb }
